@@ -67,7 +67,11 @@ def graphs(draw, max_nodes=12, min_nodes=1, labels=False, attackers=0, tags=True
     atts = []
     for j in range(draw(st.integers(0, attackers)) if attackers else 0):
         reached = draw(st.lists(st.integers(0, n - 1), max_size=min(n, 5), unique=True))
-        atts.append({'name': f'Att{j}', 'reached': reached})
+        att = {'name': f'Att{j}', 'reached': reached}
+        if draw(st.integers(0, 3)) == 0:
+            # entry points that are not (any longer) among the reached steps
+            att['entry_points'] = draw(st.lists(st.integers(0, n - 1), max_size=3, unique=True))
+        atts.append(att)
     return {'nodes': nodes, 'edges': edges, 'attackers': atts}
 
 
